@@ -192,6 +192,24 @@ def body_runs(case):
             if not np.allclose(last["ml"][:low], ref[:low], rtol=1e-9, atol=1e-12) or np.any(last["ml"] < ref - 1e-12):
                 out.append(Violation("C06/run/bias-test-not-on-the-final-level-means",
                                      f"tested {last['ml']} vs final {ref}; {detail}"))
+    # the bias test on the simulated samples themselves (ledger): a run that stopped below the maximum level on Giles'
+    # criterion has a remaining-bias estimate below sqrt(theta) rmse, with the level means taken from what was simulated
+    # (the engine's work-around for vanishing means applied) and the weak rate the criterion was run with
+    if crit and not stopped_on_max and case.get("criteria", "giles") == "giles" and not case["controls"] and L >= 2 \
+            and np.isfinite(crit[-1]["alpha"]):
+        alpha_used = float(crit[-1]["alpha"])
+        means = []
+        for l in range(L + 1):
+            f_, c_, rows_ = expected_arrays(case, led, counts, l)
+            means.append(abs(float(np.mean(f_ - c_))) if len(rows_) else 0.0)
+        for l in range(3, L + 1):
+            means[l] = max(means[l], 0.5 * means[l - 1] / 2 ** alpha_used)
+        if 2 ** alpha_used - 1 > 0:
+            rem = max(means[-1], means[-2] / 2 ** alpha_used, means[-3] / 2 ** (2 * alpha_used)) / (2 ** alpha_used - 1)
+            if rem > 0.5 * case["rmse"] * (1 + 1e-6):
+                out.append(Violation("C06/run/bias-test-fails-on-the-simulated-samples",
+                                     f"returned at L={L} < {max_level}: remaining bias from the simulated samples {rem!r} > "
+                                     f"sqrt(theta) rmse = {0.5 * case['rmse']!r} (level means {means}, alpha {alpha_used}); {detail}"))
     # allocation: every level has its optimal number of samples within the 1% rule
     alloc = rec["alloc_calls"]
     if alloc:
